@@ -528,6 +528,28 @@ func ruleFileName(c *Ctx, prefix string, sf, w *ssa.Function) {
 	var accept func(v ssa.Value) bool
 	accept = func(v ssa.Value) bool {
 		switch x := v.(type) {
+		case *ssa.Parameter:
+			// the name handed to a watcher goroutine / helper: what every call site passes
+			g := x.Parent()
+			if g == sf {
+				return false
+			}
+			n := 0
+			for i, q := range g.Params {
+				if q != x {
+					continue
+				}
+				for _, site := range c.P.CallersOf(g) {
+					if i >= len(site.Common().Args) || site.Common().StaticCallee() != g {
+						return false
+					}
+					n++
+					if ok, _ := staticOrigins(c, sf, site.Common().Args[i], accept); !ok {
+						return false
+					}
+				}
+			}
+			return n > 0
 		case *ssa.Const:
 			return x.Value != nil && x.Value.ExactString() == `""` // a helper's failure return: no file is ever read under the empty name
 		case *ssa.UnOp:
